@@ -454,7 +454,7 @@ pub fn sched(args: &[&str]) -> Option<Vec<String>> {
         schedule: if *schedule == "-" { vec![] } else { schedule.split(',').map(String::from).collect() },
     };
     let faults = parse_faults(faults)?;
-    let l = TcpListener::bind("127.0.0.1:0").ok()?;
+    let l = TcpListener::bind((crate::util::lo(), 0)).ok()?;
     let port = l.local_addr().ok()?.port();
     let slog: ServerLog = Arc::new(Mutex::new(vec![]));
     let stop = Arc::new(AtomicBool::new(false));
@@ -481,7 +481,7 @@ pub fn sched(args: &[&str]) -> Option<Vec<String>> {
     }
     let open_left = active.load(Ordering::SeqCst);
     stop.store(true, Ordering::SeqCst);
-    let _ = std::net::TcpStream::connect(("127.0.0.1", port));
+    let _ = std::net::TcpStream::connect((crate::util::lo(), port));
     let _ = server.join();
     let (results, idle, threads_left, complete) = out?;
     let log = ctl.m.lock().unwrap().log.join(",");
@@ -527,7 +527,7 @@ pub fn idle_of_pub(d: &str) -> String {
 fn run_sync(ctl: &Arc<Controller>, plan: &Plan, port: u16) -> Option<(String, String, usize, bool)> {
     let base_threads = pool_threads();
     ctl.register("m");
-    let t = SmtpTransport::builder_dangerous("127.0.0.1")
+    let t = SmtpTransport::builder_dangerous(crate::util::lo())
         .port(port)
         .timeout(Some(Duration::from_millis(plan.timeout_ms)))
         .pool_config(PoolConfig::new().max_size(plan.max_size).min_idle(plan.min_idle).idle_timeout(Duration::from_millis(plan.idle_ms)))
